@@ -435,9 +435,9 @@ PROPS["C12"] = {
     ],
     "parts": [
         {"name": "linearizability", "mode": "plain", "test": "TestC12",
-         "quick": {"checks": 600, "shards": 4}, "thorough": {"checks": 8000, "shards": 16}},
+         "quick": {"checks": 300, "shards": 8}, "thorough": {"checks": 8000, "shards": 16}},
         {"name": "race-detector", "mode": "race", "test": "TestC12",
-         "quick": {"checks": 80, "shards": 4}, "thorough": {"checks": 1000, "shards": 16}},
+         "quick": {"checks": 50, "shards": 6}, "thorough": {"checks": 1000, "shards": 16}},
         {"name": "expiry", "mode": "plain", "test": "TestC12Expiry",
          "quick": {"checks": 12, "shards": 4}, "thorough": {"checks": 150, "shards": 8}},
         {"name": "expiry-race", "mode": "race", "test": "TestC12Expiry",
@@ -613,3 +613,5 @@ PROPS["C18"]["rule"] += " A third of the facts and events carry a nested argumen
 PROPS["C12"]["rule"] += (" Half of the workloads run with schedule noise: the location's timers are on and a PointHook on every client "
                          "context (called by rulio whenever a timed section ends, i.e. after the locks of a state or location operation "
                          "are released) yields or sleeps for 40-250 us, pseudo-randomly from the case.")
+for _p in ("C11", "C17"):
+    PROPS[_p]["rule"] += " Half of the concurrent cases run with schedule noise (yields and 30-250 us sleeps at lock boundaries and at the end of timed sections; DESIGN.md A.0, Hooks)."
